@@ -4,7 +4,7 @@ LEVEL = {"C15": "fault_enumeration"}
 ENGINES = [
     {"name": "E4-schedx", "path": "e4 (+ sched, vsync, vgotomic)", "serves_properties": ["C20", "C04", "C06", "C08", "C09", "C15"],
      "kind_free_text": "cooperative scheduler + DFS over choice sequences with iterative preemption bounding on the real code rebuilt with a go build -overlay that rewrites \"sync\" to verif/vsync and gotomic to verif/vgotomic; separate free-running -race pass"},
-    {"name": "E5-inpackage", "path": "e5", "serves_properties": ["C16"],
+    {"name": "E5-inpackage", "path": "e5", "serves_properties": ["C16", "C17"],
      "kind_free_text": "exhaustive enumeration inside a package of the repository that cannot be imported (cmd/wasp, package main): the harness test file is compiled into that package through a go test -overlay, /repo itself is not touched"},
     {"name": "E3-crashx", "path": "e3", "serves_properties": ["C15"],
      "kind_free_text": "crash-point enumeration with real child processes killed by SIGKILL at verif-tag hook points in wasp/messages/store.go, restarted on the same directory"},
@@ -37,11 +37,14 @@ PHASES = {
         {"pkg": "e2", "test": "TestC18HostileInput", "phase": "C18/hostile-streams"},
         {"pkg": "e2", "test": "TestC18SplitPackets", "phase": "C18/split-packets"},
         {"pkg": "e2", "test": "TestC18WorkerStarvation", "phase": "C18/publish-worker-starvation"},
+        {"pkg": "e2", "test": "TestC18SilentReader", "phase": "C18/silent-reader"},
     ],
     "C17": [
         {"pkg": "e2", "test": "TestC17MountPoints", "phase": "C17/mount-point-isolation"},
         {"pkg": "e2", "test": "TestC17NodeFailure", "phase": "C17/node-failure-wills"},
         {"pkg": "e2", "test": "TestC17CredentialFile", "phase": "C17/credential-file-mount-points"},
+        # the real process (cmd/wasp run(), production wiring incl. the audit trail published per tenant), on loopback ports
+        {"pkg": "e5", "test": "TestC17RealBroker", "phase": "C17/real-process-wiring"},
     ],
     "C14": [
         {"pkg": "e2", "test": "TestC14CrossNode", "phase": "C14/cross-node-delivery"},
@@ -67,6 +70,8 @@ PHASES = {
         {"pkg": "e2", "test": "TestC03Retransmission", "phase": "C03/retransmission"},
         {"pkg": "e2", "test": "TestC03TimerPhase", "phase": "C03/timer-phase"},
         {"pkg": "e2", "test": "TestC03SessionDigits", "phase": "C03/session-id-digits"},
+        # retransmission to the other sessions must survive one subscriber that stops reading (same paths as C18's)
+        {"pkg": "e2", "test": "TestC18SilentReader", "phase": "C18/silent-reader"},
     ],
     "C02": [
         {"pkg": "e2", "test": "TestC02Delivery", "phase": "C02/acknowledged-publish-delivered"},
